@@ -839,6 +839,33 @@ def lazy_eval(prog: Program) -> RuleResult:
                    f"{why}: obtaining the first result pulls the whole stream (every result assertion still passes, streaming use and expensive predicates break)")
         else:
             r.ok(f"{f.short}#streams", site(f), "", "streams are only iterated lazily")
+    # a domain mapping turns one value into a stream of values: it must not materialise the value it maps (flatten over a generator-
+    # valued attribute is a lazily produced domain like any other)
+    dm = prog.cls("symbolic.DomainMapping")
+    n_maps = 0
+    for c in sorted(prog.subclasses(dm.qual), key=lambda x: x.qual):
+        m = c.methods.get("_apply_mapping_")
+        if m is None or len(m.params) < 2:
+            continue
+        n_maps += 1
+        vparam = m.params[1]
+        bad = None
+        for call in calls_in(m.node):
+            eager = isinstance(call.func, ast.Name) and call.func.id in EAGER
+            if not eager and isinstance(call.func, ast.Name):
+                q = m.module.resolve(call.func)
+                eager = q in ep
+            if eager and any(isinstance(x, ast.Name) and x.id == vparam for a in call.args for x in ast.walk(a)):
+                bad = bad or call
+        for n in walk_local(m.node):
+            if isinstance(n, (ast.ListComp, ast.SetComp, ast.DictComp)) and any(isinstance(x, ast.Name) and x.id == vparam for g in n.generators for x in ast.walk(g.iter)):
+                bad = bad or n
+        r.check(bad is None, f"{c.name}._apply_mapping_#streams-the-mapped-value", site(m, bad) if bad is not None else site(m), src(bad)[:100] if bad is not None else "",
+                "the mapped value is only read, indexed, called or iterated lazily",
+                f"{src(bad)[:80] if bad is not None else ''} materialises the value being mapped: flatten() over a generator-valued attribute (or a generator handed to flatten) is drained "
+                f"completely before its first element is produced")
+    if n_maps < 3:
+        raise AnalysisError("LAZY-EVAL: fewer than three domain mappings found (Attribute, Index, Call, Flatten are the confirmed instances)")
     # the public entry streams its results
     rq = prog.cls("symbolic.ResultQuantifier")
     e = prog.method(rq.qual, "evaluate", inherited=False)
